@@ -107,8 +107,6 @@ h_mk_ghost(void)
 	g_http_cb_rv = nondet_int();
 	g_http_i = nondet_size_t();
 	g_http_j = nondet_size_t();
-	g_http_fe_i = nondet_size_t();
-	g_http_fe_j = nondet_size_t();
 }
 
 /* observation of a step's outcome (harness-level statement of C08; the same facts are in the step contracts) */
